@@ -570,7 +570,9 @@ impl<A: Send + 'static> Cell<A> {
                         .with_firing_op(|firing_op: &mut Option<Cell<A>>| {
                             if let Some(ref firing) = firing_op {
                                 // will be overwriten by node2 firing if there is one
-                                sodium_ctx.update_node(firing.updates().node());
+                                // as a dependency: its dependents (this switch among them) must not be
+                                // walked from inside this update
+                                sodium_ctx.update_node2(firing.updates().node(), true);
                                 let sa = sa.unwrap();
                                 sa._send(firing.sample());
                                 node1.data.changed.store(true, Ordering::SeqCst);
